@@ -16,19 +16,29 @@ pub struct Case {
     pub th_bits: u64,
     /// the token list is repeated this many times (long streams for the laziness clause)
     pub repeat: u32,
+    /// per token: carry the separation hint as a pause recorded on the predecessor (read through the
+    /// `previous` argument of nt_separated) instead of a flag on the token itself
+    #[serde(default)]
+    pub via_prev: Vec<bool>,
 }
 pub struct C15;
 
 fn build(c: &Case) -> Vec<Tk> {
     let mut v = vec![];
     for _ in 0..c.repeat.max(1) {
-        for (text, sep, nan) in &c.tokens {
+        for (text, _, nan) in &c.tokens {
             let mut t = Tk::new(v.len(), text);
             if !scanner_skips(text) {
-                t.sep = *sep;
                 t.nan = *nan;
             }
             v.push(t);
+        }
+    }
+    let n = c.tokens.len().max(1);
+    for i in 0..v.len() {
+        let (text, sep, _) = &c.tokens[i % n];
+        if *sep && !scanner_skips(text) {
+            set_sep(&mut v, i, true, c.via_prev.get(i % n).copied().unwrap_or(false));
         }
     }
     v
@@ -40,14 +50,14 @@ impl Property for C15 {
         "C15"
     }
     fn rule(&self) -> String {
-        "Generated: own-token streams of 0..14 tokens (number words of every class, speller phrases, ordinals, conjunction / separator / linking / ordinary words, punctuation and whitespace tokens), optionally repeated up to 40 times, with per-token 'separated from predecessor' and 'not a number part' hints placed only on tokens the scanner looks at (never on whitespace-only or bare '-' tokens) and forced, in half of the cases, onto a token inside what would otherwise be one number (incl. right after a conjunction or separator word); any threshold. Oracle: (1) collect(find_numbers_iter) == find_numbers, and two more next() calls after None return None; (2) laziness with a counting adaptor on the input: nothing is consumed before the first next(); when the k-th occurrence is yielded, the number of tokens consumed is <= the end of the (k+2)-th occurrence of the batch result when that exists; (3) for every hinted token i with predecessor j (previous non-skipped token): no occurrence contains both; and the stream with that hint cleared and a ',' token inserted before i yields the same occurrences after index mapping; (4) no occurrence contains a token flagged 'not a number part'. Non-trivial = distinct streams where a hint falls inside what the unhinted stream reads as one number, or with >= 4 occurrences (needed for the look-ahead bound).".into()
+        "Generated: own-token streams of 0..14 tokens (number words of every class, speller phrases, ordinals, conjunction / separator / linking / ordinary words, punctuation and whitespace tokens), optionally repeated up to 40 times, with per-token 'separated from predecessor' hints (carried either as a flag on the token or as a pause recorded on the preceding token and read through the `previous` argument of nt_separated) and 'not a number part' hints placed only on tokens the scanner looks at (never on whitespace-only or bare '-' tokens) and forced, in half of the cases, onto a token inside what would otherwise be one number (incl. right after a conjunction or separator word); any threshold. Oracle: (1) collect(find_numbers_iter) == find_numbers, and two more next() calls after None return None; (2) laziness with a counting adaptor on the input: nothing is consumed before the first next(); when the k-th occurrence is yielded, the number of tokens consumed is <= the end of the (k+2)-th occurrence of the batch result when that exists; (3) for every hinted token i with predecessor j (previous non-skipped token): no occurrence contains both; and the stream with that hint cleared and a ',' token inserted before i yields the same occurrences after index mapping; (4) no occurrence contains a token flagged 'not a number part'. Non-trivial = distinct streams where a hint falls inside what the unhinted stream reads as one number, or with >= 4 occurrences (needed for the look-ahead bound).".into()
     }
     fn assumptions(&self) -> Vec<String> {
         vec!["hints are generated on tokens the scanner examines only: whitespace-only and bare '-' tokens are dropped before hints are read, and no real annotator flags them".into()]
     }
     fn strategy(&self, _tier: Tier) -> BoxedStrategy<Case> {
-        (sentence_strategy(Mode::Clean, 8), proptest::collection::vec(any::<u8>(), 0..40), threshold_strategy(), prop_oneof![6 => Just(1u32), 1 => 2u32..40], any::<u8>(), any::<u16>())
-            .prop_map(|((lang, sent), hints, th_bits, repeat, force, pos)| {
+        (sentence_strategy(Mode::Clean, 8), proptest::collection::vec(any::<u8>(), 0..40), threshold_strategy(), prop_oneof![6 => Just(1u32), 1 => 2u32..40], any::<u8>(), any::<u16>(), proptest::collection::vec(any::<bool>(), 0..40))
+            .prop_map(|((lang, sent), hints, th_bits, repeat, force, pos, via_prev)| {
                 // one token per item; whitespace joins become their own tokens (like the tokenizer's output)
                 let mut tokens: Vec<(String, bool, bool)> = vec![];
                 for it in &sent.items {
@@ -76,7 +86,7 @@ impl Property for C15 {
                         }
                     }
                 }
-                Case { lang, tokens, th_bits, repeat }
+                Case { lang, tokens, th_bits, repeat, via_prev }
             })
             .boxed()
     }
@@ -89,7 +99,7 @@ impl Property for C15 {
         let stream = build(c);
         let n = stream.len();
         let show = |o: &[Occ]| o.iter().map(|x| format!("[{},{}){:?}", x.start, x.end, x.text)).collect::<Vec<_>>().join(" ");
-        let texts = || stream.iter().map(|t| format!("{}{}{}", t.text, if t.sep { "<sep>" } else { "" }, if t.nan { "<nan>" } else { "" })).collect::<Vec<_>>();
+        let texts = || stream.iter().map(|t| format!("{}{}{}{}", t.text, if t.sep { if t.via_prev { "<sep:pause-on-predecessor>" } else { "<sep>" } } else { "" }, if t.nan { "<nan>" } else { "" }, if t.pause_after { "<pause-after>" } else { "" })).collect::<Vec<_>>();
         let batch = occs(find_numbers(stream.iter(), lg, th));
         // (1) + (2)
         let consumed = Cell::new(0usize);
@@ -136,16 +146,14 @@ impl Property for C15 {
             }
             // hint == spoken comma (only checked on unrepeated streams: one hint at a time)
             if c.repeat <= 1 {
+                let mut cleared = stream.clone();
+                set_sep(&mut cleared, i, false, false);
                 let mut alt: Vec<Tk> = vec![];
-                for (q, t) in stream.iter().enumerate() {
+                for (q, t) in cleared.iter().enumerate() {
                     if q == i {
                         alt.push(Tk::new(0, ","));
                     }
-                    let mut t2 = t.clone();
-                    if q == i {
-                        t2.sep = false;
-                    }
-                    alt.push(t2);
+                    alt.push(t.clone());
                 }
                 let alt_occ: Vec<Occ> = occs(find_numbers(alt.iter(), lg, th))
                     .into_iter()
